@@ -37,6 +37,8 @@ def run_cfg(chk, facts, cfg):
         return
     two, up, lo = vidx['TwoSided'], vidx['UpperOneSided'], vidx['LowerOneSided']
     n = 0
+    from ..overrides import obligation as no_overrides
+    no_overrides(chk, PID, facts, sfx, [path], 'Confidence ordering and equality')
 
     def cval(v, payload):
         return ('adt', path, v, (payload,))
